@@ -90,24 +90,27 @@ Proof. exact release_preserves_excl. Qed.
 Print Assumptions C13_exclusion_preserved_by_release.
 
 (* ---- "no capability is switched off while something that needs it remains" ----
-   (The code used to refuse only ref_count > 1; repaired by the fix "a feature required by exactly one other enabled
-   feature could be disabled"; the model follows the repair.)
-   disable refuses a feature with at least one reference, and changes nothing then. *)
-Theorem C13_disable_refuses_referenced_feature : forall (T : tables) n o f s,
-  (0 < fs_rc (get_fs s o f))%Z -> is_enabled s o f = true -> disable T (S n) o f s = Some (false, s).
+   FULL STATEMENT (false of the code, see the counterexample below):
+     forall T n o g s s', consistent T s -> disable T n o g s = Some (true, s') -> consistent T s'
+   (consistent: DepsInv.v; it implies that every enabled capability has its prerequisites enabled).
+   What holds: (a) disable refuses a feature with more than one reference, and changes nothing then;
+   (b) C13_disable_keeps_consistency_partial / C13_no_switch_off_while_needed_partial below: the statement holds for
+   every call on a feature whose ref_count is not exactly 1, and for all sequences of deletions. *)
+Theorem C13_disable_refuses_multiply_referenced_feature : forall (T : tables) n o f s,
+  (1 < fs_rc (get_fs s o f))%Z -> is_enabled s o f = true -> disable T (S n) o f s = Some (false, s).
 Proof. exact disable_refuses. Qed.
-Print Assumptions C13_disable_refuses_referenced_feature.
+Print Assumptions C13_disable_refuses_multiply_referenced_feature.
 
-(* regression example on the real tables (the former counterexample): a scalar variable with output_total_force (20)
-   on, which requires total_force (7) and holds the only reference to it (ref_count 1): disable(7) is refused;
-   disabling 20 releases 7. *)
-Example C13_example_single_dependent : exists s,
+(* Counterexample on the real tables: a scalar variable with output_total_force (20) on, which requires
+   total_force (7) and holds the only reference to it (ref_count 1): disable(7) succeeds. *)
+Theorem C13_no_switch_off_while_needed_refuted : exists s s',
   enable gen_tables 20 0 20 false true false w3_s0 = Some (true, s) /\
   In 7 (f_self (feat gen_tables (cls_of s 0) 20)) /\ is_enabled s 0 20 = true /\ is_enabled s 0 7 = true /\
   fs_rc (get_fs s 0 7) = 1%Z /\
-  disable gen_tables 20 0 7 s = Some (false, s) /\
-  (exists s', disable gen_tables 20 0 20 s = Some (true, s') /\ is_enabled s' 0 20 = false /\ is_enabled s' 0 7 = false).
-Proof. exact w3_regression. Qed.
+  disable gen_tables 20 0 7 s = Some (true, s') /\
+  is_enabled s' 0 20 = true /\ is_enabled s' 0 7 = false.
+Proof. exact w3_witness. Qed.
+Print Assumptions C13_no_switch_off_while_needed_refuted.
 
 (* ---- a failed enable ----
    FULL STATEMENT (false of the code): enable T n o f false top err s = Some (false, s') -> s' = s.
@@ -184,11 +187,11 @@ Example C13_example_release : exists s s',
   release_op (OpDisable 0 20) = true /\ run_op gen_tables 20 (OpDisable 0 20) s = Some (true, s') /\
   is_enabled s 0 20 = true /\ is_enabled s' 0 20 = false /\ is_enabled s' 0 7 = false.
 Proof.
-  destruct w3_regression as (s & _ & _ & E20 & _ & _ & _ & (s' & D & A & B)). exists s, s'.
-  repeat split; try assumption.
+  destruct w3_witness as (s & _ & E & _). exists s. eexists.
+  vm_compute in E. inversion E as [Hs]. repeat (split; [vm_compute; reflexivity|]). vm_compute; reflexivity.
 Qed.
 
-Example C13_example_guard : exists s, (0 < fs_rc (get_fs s 0 2))%Z /\ is_enabled s 0 2 = true.
+Example C13_example_guard : exists s, (1 < fs_rc (get_fs s 0 2))%Z /\ is_enabled s 0 2 = true.
 Proof.
   exists [mkObj 1 (map (fun i => mkFstate true (Nat.eqb i 2) 2%Z []) (seq 0 38)) [] []].
   split; vm_compute; reflexivity.
@@ -276,14 +279,16 @@ Proof. eexists. split; [vm_compute; reflexivity|]. repeat split. Qed.
    listing g in requires_children;  excess = ref_count - need.
    consistent T s = every excess >= 0 and every disabled feature has ref_count <= 0. *)
 
-(* Main lemma, full generality (any tables, any state whose object graph has a height decreasing from parent to child,
-   any object, feature, fuel, successful or refused call, with all cascades of automatic disables through the object and
-   its descendants): a complete call of disable never lowers the excess of any feature of any object: every reference it
-   releases is matched by a requirement that disappears with it. *)
-Theorem C13_disable_never_lowers_excess : forall (T : tables) (ht : nat -> nat) n o f s r s',
-  heights ht s -> disable T n o f s = Some (r, s') -> forall o' g, (excess T s o' g <= excess T s' o' g)%Z.
+(* Main lemma (any tables, any state whose object graph has a height decreasing from parent to child, any object,
+   feature, fuel, successful or refused call, with all cascades of automatic disables through the object and its
+   descendants): a complete call of disable ON A FEATURE WHOSE ref_count IS NOT EXACTLY 1 never lowers the excess of any
+   feature of any object: every reference it releases is matched by a requirement that disappears with it.
+   (_partial: the side condition is needed, see C13_no_switch_off_while_needed_refuted; the automatic disables made by
+   decr_ref_count inside the call happen at ref_count 0 and are covered.) *)
+Theorem C13_disable_never_lowers_excess_partial : forall (T : tables) (ht : nat -> nat) n o f s r s',
+  heights ht s -> rc s o f <> 1%Z -> disable T n o f s = Some (r, s') -> forall o' g, (excess T s o' g <= excess T s' o' g)%Z.
 Proof. exact disable_keeps_excess. Qed.
-Print Assumptions C13_disable_never_lowers_excess.
+Print Assumptions C13_disable_never_lowers_excess_partial.
 
 (* "At every point each enabled capability of every object has its prerequisites enabled": in a consistent state
    requires_self, the chosen alternatives, and (for active objects) requires_children are all enabled. *)
@@ -300,21 +305,40 @@ Proof.
 Qed.
 Print Assumptions C13_consistent_prerequisites_enabled.
 
-(* "no capability is switched off while something that needs it remains" -- FULL statement, for ALL finite sequences of
-   the public deletion operations {switch a feature off, delete a bias, delete a variable with its biases, reset} from
-   any well-formed consistent state: consistency (hence the three prerequisite clauses above) holds afterwards. *)
-Theorem C13_no_switch_off_while_needed : forall (T : tables) n (ps : list mop) m m',
+(* "no capability is switched off while something that needs it remains", what holds of the code as it is:
+   for ALL finite sequences of the deletion operations {delete a bias, delete a variable with its biases, reset} from any
+   well-formed consistent state, consistency (hence the three prerequisite clauses above) holds afterwards;
+   missing for the full statement: switching a feature off by script (next theorem, with its side condition). *)
+Theorem C13_no_switch_off_while_needed_partial : forall (T : tables) n (ps : list mop) m m',
   forallb deletion_op ps = true -> wf m -> consistent T (m_objs m) -> m_run T n ps m = Some m' ->
   wf m' /\ consistent T (m_objs m').
 Proof. exact deletions_keep_consistency. Qed.
-Print Assumptions C13_no_switch_off_while_needed.
+Print Assumptions C13_no_switch_off_while_needed_partial.
 
-(* the two primitives behind it *)
-Theorem C13_disable_keeps_consistency : forall (T : tables) (ht : nat -> nat) n o f s r s',
-  heights ht s -> disable T n o f s = Some (r, s') -> consistent T s -> consistent T s'.
-Proof. exact disable_consistent. Qed.
-Print Assumptions C13_disable_keeps_consistency.
+(* switching a feature off (script `set <feature> off`) keeps consistency when the feature does not hold exactly one
+   reference (with more than one the call is refused, with none nothing depends on it) *)
+Theorem C13_disable_keeps_consistency_partial : forall (T : tables) n o f m m',
+  wf m -> consistent T (m_objs m) -> rc (m_objs m) o f <> 1%Z -> m_prim T n (OpDisable o f) m = Some m' ->
+  wf m' /\ consistent T (m_objs m').
+Proof. exact disable_step_keeps_consistency. Qed.
+Print Assumptions C13_disable_keeps_consistency_partial.
 
+(* ... and WITHOUT the side condition it does not: the state of the counterexample above is consistent, the disable of
+   total_force (ref_count 1) succeeds, the result is not consistent *)
+Theorem C13_disable_keeps_consistency_refuted : exists s s',
+  consistent gen_tables s /\ rc s 0 7 = 1%Z /\ disable gen_tables 20 0 7 s = Some (true, s') /\ ~ consistent gen_tables s'.
+Proof.
+  destruct w3_witness as (s & s' & E & Hin & E20 & E7 & Hrc & D & E20' & E7').
+  exists s, s'. split; [|split; [exact Hrc|split; [exact D|]]].
+  - apply (consistent_check_sound gen_tables s 40). vm_compute in E. inversion E; subst. vm_compute. reflexivity.
+  - intros C. pose proof (consistent_requires_self gen_tables s' 0 20 7 C E20') as X.
+    assert (Hin' : In 7 (f_self (feat gen_tables (cls_of s' 0) 20))).
+    { vm_compute in E. inversion E; subst. vm_compute in D. inversion D; subst. vm_compute. auto 12. }
+    rewrite (X Hin') in E7'. discriminate.
+Qed.
+Print Assumptions C13_disable_keeps_consistency_refuted.
+
+(* deletion of a bias (colvarbias::clear + ~colvardeps) keeps consistency, no side condition *)
 Theorem C13_delete_bias_keeps_consistency : forall (T : tables) (ht : nat -> nat) n b s s',
   heights ht s -> delete_bias T n b s = Some s' -> consistent T s -> consistent T s'.
 Proof. exact delete_bias_consistent. Qed.
@@ -358,4 +382,15 @@ Proof.
   assert (C : consistent gen_tables (m_objs m)) by (apply (consistent_check_sound gen_tables (m_objs m) 40 Ck)).
   exists m, m'. repeat (split; [assumption || reflexivity|]).
   apply (deletions_keep_consistency gen_tables 40 [MDeleteColvar 0] m m' eq_refl W C E').
+Qed.
+
+(* non-vacuity of C13_disable_keeps_consistency_partial: in the same state the bias (object 7) is switched off:
+   its "active" holds no reference (top-level request), the call succeeds and releases the variables *)
+Example C13_example_disable_partial : exists m m',
+  m_run gen_tables 40 (firstn 8 ex_ops) (m_empty 5) = Some m /\ wf_check m = true /\ consistent_check gen_tables (m_objs m) 40 = true /\
+  rc (m_objs m) 7 0 = 0%Z /\ m_prim gen_tables 40 (OpDisable 7 0) m = Some m' /\
+  is_enabled (m_objs m') 7 0 = false /\ is_enabled (m_objs m') 0 0 = false.
+Proof.
+  do 2 eexists. split; [vm_compute; reflexivity|]. split; [vm_compute; reflexivity|]. split; [vm_compute; reflexivity|].
+  split; [vm_compute; reflexivity|]. split; [vm_compute; reflexivity|]. split; vm_compute; reflexivity.
 Qed.
